@@ -32,15 +32,42 @@ def u_rules(schema: Schema, rep: Report):
     tr = getattr(look.stmt, "_parent", None)
     while tr is not None and not isinstance(tr, ast.Try):
         tr = getattr(tr, "_parent", None)
+    guard_form = None
     if tr is None:
-        # lookup without try: an unknown tag raises ValueError out of convert
-        rep.check("U-R1", "update_args:unknown-tag-handled", False, "the spec lookup is not inside a try: an unknown tag raises out of the conversion", f"{rel}:{look.stmt.lineno}")
-        return
-    catches = [h for h in tr.handlers if h.type is None or any(isinstance(x, ast.Name) and x.id in ("ValueError", "Exception", "KeyError", "LookupError") for x in ast.walk(h.type))]
-    rep.check("U-R1", "update_args:unknown-tag-handled", bool(catches), "no handler for the failed lookup (ValueError)" if not catches else "", f"{rel}:{tr.lineno}")
-    for h in catches:
-        hn = [n for n in cfg.nodes if n.kind == "except" and n.stmt is h][0]
-        r = cfg.reachable(hn.id)
+        # no try: a membership test that dominates the lookup does the same job (`if key not in spec: ...; return`)
+        from .paths import canon_atom
+
+        call_ = [c for c in look.calls() if isinstance(c.func, ast.Attribute) and c.func.attr == "index"][0]
+        want = f"{ex.t(call_.args[0])} in {ex.t(call_.func.value)}" if call_.args else None
+        want2 = f"{ex.t(call_.args[0])} in {text(call_.func.value)}" if call_.args else None
+        for n in cfg.nodes:
+            if n.kind != "test" or not isinstance(n.stmt, ast.If):
+                continue
+            a, pol = canon_atom(ex.x(n.stmt.test))
+            a0, pol0 = canon_atom(n.stmt.test)
+            if a not in (want, want2) and not (call_.args and a0 == f"{text(call_.args[0])} in {text(call_.func.value)}"):
+                continue
+            unknown_body = n.stmt.orelse if pol else n.stmt.body
+            if unknown_body and cfg.dominated_by(look.id, [n.id]) and not any(_inside(look.stmt, st_) for st_ in unknown_body):
+                guard_form = (n, unknown_body)
+        if guard_form is None:
+            # lookup without try or guard: an unknown tag raises ValueError out of convert
+            rep.check("U-R1", "update_args:unknown-tag-handled", False, "the spec lookup is neither inside a try nor behind a membership test: an unknown tag raises out of the conversion", f"{rel}:{look.stmt.lineno}")
+            return
+    if guard_form is not None:
+        gnode, body_ = guard_form
+        h_ = ast.Module(body=list(body_), type_ignores=[])
+        h_.lineno = body_[0].lineno
+        rep.check("U-R1", "update_args:unknown-tag-handled", True, "membership test before the lookup", f"{rel}:{gnode.stmt.lineno}")
+        branches = [(h_, cfg.node_of(body_[0]).id)]
+        handlers_ast = [h_]
+    else:
+        catches = [h for h in tr.handlers if h.type is None or any(isinstance(x, ast.Name) and x.id in ("ValueError", "Exception", "KeyError", "LookupError") for x in ast.walk(h.type))]
+        rep.check("U-R1", "update_args:unknown-tag-handled", bool(catches), "no handler for the failed lookup (ValueError)" if not catches else "", f"{rel}:{tr.lineno}")
+        branches = [(h, [n for n in cfg.nodes if n.kind == "except" and n.stmt is h][0].id) for h in catches]
+        handlers_ast = list(tr.handlers)
+    for h, hn_id in branches:
+        r = cfg.reachable(hn_id)
         # every way out of the handler is `return <accum>`
         outs = [cfg.nodes[i] for i in r if any(b in (cfg.exit.id, cfg.raise_exit.id) for b, _ in cfg.succ[i])]
         ok = True
@@ -66,9 +93,9 @@ def u_rules(schema: Schema, rep: Report):
         rep.check("U-R1", "update_args:unknown-branch-reports", bool(warns), "unknown tags are dropped without a warning" if not warns else "", f"{rel}:{h.lineno}")
     # nothing that can raise or store happens before the lookup succeeded
     pre = cfg.reachable(cfg.entry.id, blocked=[look.id])
-    pre_writes = [w for w in writes_in(inner) if cfg.node_of(w.stmt) is not None and cfg.node_of(w.stmt).id in pre and not any(_inside(w.stmt, h) for h in tr.handlers)]
+    pre_writes = [w for w in writes_in(inner) if cfg.node_of(w.stmt) is not None and cfg.node_of(w.stmt).id in pre and not any(_inside(w.stmt, h) for h in handlers_ast)]
     rep.check("U-R1", "update_args:no-store-before-lookup", not pre_writes, f"values are stored before the tag is known to be declared: {[text(w.target) for w in pre_writes]}" if pre_writes else "", f"{rel}:{inner.lineno}")
-    pre_raises = [cfg.nodes[i] for i in pre if cfg.nodes[i].kind == "raise" and not any(_inside(cfg.nodes[i].stmt, h) for h in tr.handlers)]
+    pre_raises = [cfg.nodes[i] for i in pre if cfg.nodes[i].kind == "raise" and not any(_inside(cfg.nodes[i].stmt, h) for h in handlers_ast)]
     rep.check("U-R1", "update_args:no-raise-before-lookup", not pre_raises, "a check that can reject the document runs before the tag is known to be declared" if pre_raises else "", f"{rel}:{inner.lineno}")
 
     rep.rule("U-R2", "sub-trees are converted (from_etree) only after the spec lookup succeeded: the content of an unknown aggregate is never converted, so it cannot raise")
@@ -76,7 +103,7 @@ def u_rules(schema: Schema, rep: Report):
     if not convs:
         raise AnalysisError("U-R2: reducer never recurses into sub-aggregates")
     for n in convs:
-        ok = cfg.dominated_by(n.id, [look.id]) and not any(n.id in cfg.reachable([x for x in cfg.nodes if x.kind == "except" and x.stmt is h][0].id) for h in tr.handlers)
+        ok = cfg.dominated_by(n.id, [look.id]) and not any(n.id in cfg.reachable(hid_) for _h, hid_ in branches)
         rep.check("U-R2", "update_args:convert-after-lookup", ok, "a child is converted before (or without) its tag having been found in the spec: the content of an unknown aggregate is converted and may raise" if not ok else "", f"{rel}:{n.stmt.lineno}")
     # element text is only read after the lookup as well (values of unknown data elements never reach the model)
     rep.rule("U-R3", "vendor-prefixed children are disposed of on every path: removed by the base groom(), or - their dotted tag never being a declared child - skipped by the unknown-tag branch (either suffices)")
